@@ -164,6 +164,8 @@ def gen_setup_py(rng, n):
         q = [json.dumps(r) for r in reqs]
         yield "setup.py", "from setuptools import setup\n\nsetup(\n    name='p',\n    install_requires=[%s],\n    python_requires='>=3.8',\n)\n" % ", ".join(q), {}
         yield "setup.py", "from setuptools import setup\n\nsetup(\n    name='p',\n    install_requires=[\n%s    ],\n)\n# end\n" % "".join(f"        {x},\n" for x in q), {}
+        if q:
+            yield "setup.py", "from setuptools import setup; setup(name='p', install_requires=[%s])\n" % ", ".join(q), {}
 
 
 # ---- one evaluation ----------------------------------------------------------------------------------------------------------
@@ -236,6 +238,12 @@ def evaluate(tmp, fname, text, aux, deps):
             want = 1
             if c != want:
                 return {"clause": "each needed requirement exactly once", "name": n, "count": c, "after": after}
+        # C15: each change entry's line number lies inside the new file
+        after_lines = after.splitlines()
+        for ch in cs.changes:
+            ln = ch.lineNumber
+            if not (1 <= ln <= len(after_lines)):
+                return {"clause": "a change's line number lies inside the file", "lineNumber": ln, "lines": len(after_lines), "after": after}
         # unrelated content: every original non-blank line survives, in order (modulo the final newline being added)
         src = [ln.strip() for ln in text.splitlines() if ln.strip()]
         dst = [ln.strip() for ln in after.splitlines() if ln.strip()]
@@ -270,24 +278,32 @@ def run_writers(tier, seed):
     try:
         for name, gen in (("requirements.txt", gen_requirements), ("pyproject.toml", gen_pyproject), ("setup.cfg", gen_setup_cfg),
                           ("setup.py", gen_setup_py)):
-            evals, bad, samples = 0, None, []
+            evals, bads, samples = 0, {}, []
             for fname, text, aux in gen(rng, n):
                 for deps in ([Security], [DefusedXML]):
                     w = evaluate(tmp, fname, text, aux, deps)
                     evals += 1
                     if len(samples) < 1:
                         samples.append({"manifest": text, "dependency": str(deps[0].requirement)})
-                    if w is not None and bad is None:
-                        bad = dict(w, manifest=text, dependency=str(deps[0].requirement))
-            records.append({"kind": "bounded", "id": f"bounded:writer chain keeps {name} valid, complete, duplicate-free", "status": "refuted" if bad else "discharged",
-                            "bound": BOUND, "evaluations": evals, "witness": bad, "samples": samples,
-                            "func": {"requirements.txt": "codemodder.dependency_management.requirements_txt_writer.RequirementsTxtWriter.add_to_file",
-                                     "pyproject.toml": "codemodder.dependency_management.pyproject_writer.PyprojectWriter.add_to_file",
-                                     "setup.cfg": "codemodder.dependency_management.setupcfg_writer.SetupCfgWriter.add_to_file",
-                                     "setup.py": "codemodder.dependency_management.setup_py_writer.SetupPyWriter.add_to_file"}[name],
-                            "reason": "" if not bad else f"{name}: clause '{bad.get('clause')}' fails on a generated manifest",
-                            "replay": {"reproduced": True, "detail": json.dumps(bad, default=str)[:2000]} if bad else None,
-                            "clause": "parse(after) ok; declared(before) kept; each new requirement once; declared already => untouched; second run adds nothing"})
+                    if w is not None:
+                        # one record per KIND of failure (clause + exception type), so that a listed known finding does not hide another
+                        obs = str(w.get("observed", ""))
+                        kind = w.get("clause", "") + ((": " + obs.split(":")[0][:60]) if obs.startswith("raised") else "")
+                        bads.setdefault(kind, dict(w, manifest=text, dependency=str(deps[0].requirement)))
+            func = {"requirements.txt": "codemodder.dependency_management.requirements_txt_writer.RequirementsTxtWriter.add_to_file",
+                    "pyproject.toml": "codemodder.dependency_management.pyproject_writer.PyprojectWriter.add_to_file",
+                    "setup.cfg": "codemodder.dependency_management.setupcfg_writer.SetupCfgWriter.add_to_file",
+                    "setup.py": "codemodder.dependency_management.setup_py_writer.SetupPyWriter.add_to_file"}[name]
+            base_id = f"bounded:writer chain keeps {name} valid, complete, duplicate-free"
+            clause = "parse(after) ok; declared(before) kept; each new requirement once; declared already => untouched; second run adds nothing; change line numbers inside the file"
+            if not bads:
+                records.append({"kind": "bounded", "id": base_id, "status": "discharged", "bound": BOUND, "evaluations": evals, "witness": None,
+                                "samples": samples, "func": func, "reason": "", "replay": None, "clause": clause})
+            for kind, bad in bads.items():
+                records.append({"kind": "bounded", "id": f"{base_id} [{kind}]", "status": "refuted", "bound": BOUND, "evaluations": evals,
+                                "witness": bad, "samples": samples, "func": func,
+                                "reason": f"{name}: clause '{bad.get('clause')}' fails on a generated manifest",
+                                "replay": {"reproduced": True, "detail": json.dumps(bad, default=str)[:2000]}, "clause": clause})
     finally:
         shutil.rmtree(tmp, ignore_errors=True)
     return records
